@@ -18,7 +18,8 @@ RULE = (
     "object (with and without a with-block; batch_size / pre_dispatch drawn) with 0-2 faults; fault = victims 1..n_jobs x "
     "kind {SIGKILL, SIGTERM, SIGSEGV (null dereference), os.abort, os._exit(0), os._exit(1)} x instant {while the worker "
     "unpickles the task arguments, at task start, mid-task after a drawn sleep, while pickling the result, while sending a "
-    "5-30 MB result (parent-side kill after a drawn delay), idle between two calls (kill the pids reported by the previous "
+    "5-30 MB result (parent-side kill after a drawn delay), while the caller thread is still dispatching (input generator that stalls "
+    "50-1000 ms before a drawn item, or pre_dispatch='all' with 30-80 tasks), idle between two calls (kill the pids reported by the previous "
     "call, wait a drawn 0-200 ms), during the next call's start-up (killer thread with a drawn delay)}.  Oracle: every call "
     "finishes within 30 s (repeating SIGALRM watchdog; normal 0.03-1 s); a call either returns exactly the expected list or raises "
     "TerminatedWorkerError / BrokenProcessPool; at most one call raises per injected fault; the call after a failed one "
@@ -42,8 +43,13 @@ def strategy():
         "kind": st.sampled_from(KINDS), "instant": st.sampled_from(INSTANTS), "victims": st.integers(1, 4),
         "delay_ms": st.sampled_from([0, 1, 5, 20, 50, 200]), "at": st.integers(0, 6),
     })
-    call = st.fixed_dictionaries({"n": st.integers(1, 12), "fault": st.one_of(st.none(), fault, fault),
-                                  "sleep_ms": st.sampled_from([0, 0, 2, 10])})
+    # "slow": the input is a generator that stalls before item `at` - the caller thread is then still inside Parallel's
+    # dispatch (holding its lock) when the worker dies and the executor's manager thread fails the pending futures
+    call = st.fixed_dictionaries({"n": st.one_of(st.integers(1, 12), st.integers(1, 12), st.integers(30, 80)),
+                                  "fault": st.one_of(st.none(), fault, fault),
+                                  "sleep_ms": st.sampled_from([0, 0, 2, 10]),
+                                  "slow": st.one_of(st.none(), st.none(),
+                                                    st.tuples(st.integers(1, 8), st.sampled_from([50, 300, 1000])).map(list))})
     return st.fixed_dictionaries({
         "n_jobs": st.integers(2, 4), "managed": st.booleans(), "batch_size": st.sampled_from([1, 1, 2, "auto"]),
         "pre_dispatch": st.sampled_from(["2*n_jobs", "all", "n_jobs"]),
@@ -191,6 +197,15 @@ def run_case(spec):
                     elif f["instant"] == "send":
                         kw["big"] = f.get("big_mb", 5 + 5 * (f["at"] % 6)) * 2 ** 20
                 items.append(delayed(tasks.ftask)(*args, **kw))
+            slow = call.get("slow")
+            if slow:
+                def _slow_input(items=items, at=min(slow[0], n - 1), ms=slow[1]):
+                    for i, it in enumerate(items):
+                        if i == at:
+                            time.sleep(ms / 1000.0)
+                        yield it
+                items = _slow_input()
+                classes.append("input-stalls-during-dispatch")
             if killer:
                 killer.start()
             t0 = time.time()
